@@ -21,7 +21,7 @@ ASSUME = [
     "special positions use exact decimals (0, 1/8 .. 7/8); thirds are not generated (0.3333 is a general position for the reader)",
 ]
 E8 = 8 * math.pi ** 2
-ELS = ["C", "O", "N", "Si", "Fe", "S", "Ca", "TI", "cl"]
+ELS = ["C", "O", "N", "Si", "Fe", "S", "Ca", "TI", "cl", "H", "Pu", "U", "he"]
 
 
 def num(rng, lo, hi, dec, esd):
@@ -78,7 +78,7 @@ def make_cif(cfg, plan, tab, rng):
         if kind in ("Uani", "Bani"):
             a["ani"] = [num(rng, 0.005, 0.08, 4, esd) if kind == "Uani" else num(rng, 0.3, 6.0, 3, esd) for _ in range(3)] + \
                        [num(rng, -0.01, 0.01, 4, esd) if kind == "Uani" else num(rng, -0.5, 0.5, 3, esd) for _ in range(3)]
-        a["occ"] = (rng.choice([("1", 1.0), ("1.0", 1.0), ("1.00(1)", 1.0)]) if rng.random() < 0.2 else num(rng, 0.1, 1.0, 3, esd)) if cfg["occ"] else None
+        a["occ"] = (rng.choice([("1", 1.0), ("1.0", 1.0), ("1.00(1)", 1.0), ("0", 0.0), ("0.0", 0.0)]) if rng.random() < 0.2 else num(rng, 0.1, 1.0, 3, esd)) if cfg["occ"] else None
         a["mult"] = rng.choice([1, 2, 3, 4, 6, 8, 12, 24]) if cfg["mult"] != "absent" else None
         atoms.append(a)
     L = []
@@ -192,9 +192,11 @@ def make_pdb(cfg, plan, tab, rng):
         elp = el.lower().capitalize() if cfg["lowercase_element"] else el
         rec = "HETATM" if (cfg["hetatm"] and k % 2) else "ATOM"
         x, y, z = [round(rng.uniform(-300, 300), 3) for _ in range(3)]      # uses all 8 columns when <= -100
-        occ, b = round(rng.uniform(0.1, 1.0), 2), round(rng.uniform(2, 60), 2)
-        name = rng.choice(["N", "CA", "C", "O", "CB", "OG1", "FE", "ZN"])
-        L.append("%-6s%5d %-4s %3s %s%4d    %8.3f%8.3f%8.3f%6.2f%6.2f          %2s" % (rec, k + 1, name, "LYS", "A", k + 1, x, y, z, occ, b, elp))
+        occ, b = rng.choice([round(rng.uniform(0.1, 1.0), 2), 1.0, 0.0]), round(rng.uniform(2, 160), 2)
+        name = rng.choice(["N", "CA", "C", "O", "CB", "OG1", "FE", "ZN", "HD11", "1HB"])
+        serial = k + 1 if rng.random() < 0.6 else rng.randint(100, 99999)          # five-digit serials fill their columns
+        resseq = k + 1 if rng.random() < 0.6 else rng.randint(100, 9999)
+        L.append("%-6s%5d %-4s %3s %s%4d    %8.3f%8.3f%8.3f%6.2f%6.2f          %2s" % (rec, serial, name, "LYS", "A", resseq, x, y, z, occ, b, elp))
         pos = [S[i][0] * x + S[i][1] * y + S[i][2] * z + S[i][3] for i in range(3)]
         atoms.append({"label": name, "atomtype": el, "pos": pos, "adp_type": "Uiso", "adp": b / E8, "occ": occ, "mult": None, "general": True})
     L.append("END")
